@@ -120,13 +120,18 @@ pub fn assert_c10(c: &Phys, ev: &Eval, ctx: &mut Ctx) -> Result<(), Failure> {
     }
     // (ii) vector identity: q_transposed (k + shift) = sqrt(v/2lambda) q
     let pref = (v / lam / 2.0).sqrt();
+    // normwise magnitude of the Gaussian part of k before cancellation: structurally-zero entries of the computed
+    // triangular inverse carry eps-level noise that multiplies O(1) components of q
+    let qt_fro = md.dec.qt.iter().flatten().map(|x| x * x).sum::<f64>().sqrt();
+    let qti_fro = md.dec.qti.iter().flatten().map(|x| x * x).sum::<f64>().sqrt();
+    let gscale: Vec<f64> = (0..d).map(|i| pref * qti_fro * (0..nl).map(|l| md.q[l][i] * md.q[l][i]).sum::<f64>().sqrt()).collect();
     for l in 0..nl {
         for i in 0..d {
             let mut acc = Q::zero();
-            let mut scale = 0.0;
+            let mut scale = qt_fro * (gscale[i] + sscale[i]);
             for lp in 0..nl {
                 acc += &qt[l][lp] * (q(k[lp][i]) + q(md.shift[lp][i]));
-                scale += md.dec.qt[l][lp].abs() * (k[lp][i].abs() + md.shift[lp][i].abs() + sscale[i]);
+                scale += md.dec.qt[l][lp].abs() * (k[lp][i].abs() + md.shift[lp][i].abs());
             }
             let want = pref * md.q[l][i];
             let err = (qf(&acc) - want).abs();
